@@ -4,6 +4,7 @@ package tcell
 
 import (
 	"io"
+	"os"
 
 	runewidth "github.com/mattn/go-runewidth"
 
@@ -153,3 +154,6 @@ func hAcsMap(ti *terminfo.Terminfo) map[byte]rune {
 	}
 	return m
 }
+
+// hEnv reads the (stubbed) environment the way the library does.
+func hEnv(k string) string { return os.Getenv(k) }
